@@ -26,7 +26,8 @@ EXTRACT_FILES = ["X13"]
 DRIVERS = ["x13"]
 RULE = ("a case = one scene (24-40 x 40-64 pair, integer radiometry inside the exact domain of the measure, right image = "
         "left shifted by -2..2 plus sparse noise, optional masks with no-data (1) and invalid (2) pixels on each side), one "
-        "local pipeline (matching cost sad/ssd/census/zncc, window 1/3/5, subpix 1/2/4; optional cbca; wta with "
+        "local pipeline (matching cost sad/ssd/census/zncc, window 1/3/5, subpix 1/2/4; optional cbca with cbca_distance 1/2/3/5, "
+        "60 % of the cbca scenes low-contrast (radiometry 0..12 or 0..40) so that the arms reach their maximal length; wta with "
         "invalid_disparity -9999 or NaN; optional vfit/quadratic refinement; optional median 3/5 or bilateral filter; "
         "optional cross-checking, optional median after it), an integer interval with |d| <= 4, compared with 2 (quick) "
         "or 4 crops; 1 (quick) / 12 scenes of 103-111 x 104-125 pixels straddle the 100- and 50-pixel blocks of wta, median, bilateral; "
@@ -86,7 +87,7 @@ def gen_pipeline(rng, force):
     ks = [[0, 0]]
     cbca = force.get("cbca", rng.random() < 0.3)
     if cbca:
-        dist = rng.choice([2, 3, 5])
+        dist = rng.choice([1, 2, 3, 5])
         p.append(["aggregation", {"aggregation_method": "cbca", "cbca_intensity": float(rng.choice([5, 20, 60])),
                                   "cbca_distance": dist}])
         ks.append([1, dist])
@@ -341,6 +342,11 @@ def gen_case(rng, model, force, ncrops):
     if force.get("big"):     # straddles the 100-pixel (50 for bilateral) blocks of wta / median / bilateral
         rows, cols = rng.randrange(103, 112), rng.randrange(104, 126)
     maxv = rng.choice([exact_maxv(info), min(255, exact_maxv(info))])
+    if info["cbca"] and rng.random() < 0.6:
+        # low-contrast scene: intensity jumps below cbca_intensity, so that the arms reach their maximal length
+        # max(cbca_distance - 1, 1) and the support regions fill the proved cone (random 10-bit radiometry gives
+        # one-pixel arms almost everywhere)
+        maxv = rng.choice([12, 40])
     if force.get("big_radiometry"):
         maxv = 4000
     left, right, ml, mr = gen_scene(rng, rows, cols, maxv, (rng.random() < 0.6, rng.random() < 0.6))
